@@ -10,6 +10,7 @@ import collections
 import hashlib
 import ipaddress
 import random
+import socket
 
 from vlib import boot, vclock
 from vlib.ref import bencode as BE
@@ -104,6 +105,7 @@ class SimNet:
         self.protocols = {}
         self.dead = set()
         self.hostile = {}                    # addr -> callable(data, src) -> [reply bytes]
+        self.illformed = set()               # (ip, port) named only by compact addresses of the wrong length that hostile nodes sent
         self.replies_seen = collections.defaultdict(set)      # dst -> {(node_id, src)}
         self.sent = self.delivered = self.dropped = self.duplicated = self.reordered = 0
         self.escaped = collections.Counter()
@@ -238,9 +240,16 @@ def make_hostile(kind, r, my_id, net, real_addrs, key_hint):
             return [reply(rpc_id, {b'token': b't' * 48, b'contacts': [], key: [ipb + (3333).to_bytes(2, 'big') + hashlib.sha384(b'rv%d' % i).digest()
                                                                                 for i in range(3)], b'p': 1})]
         if kind == 'bad_compact':
-            return [reply(rpc_id, {b'token': b't' * 48, b'contacts': [], key: [b'short', b'\x01\x02\x03\x04\x00\x00' + my_id, b'x' * 100,
-                                                                                 bytes([10, 0, 0, 1]) + (3333).to_bytes(2, 'big') + my_id,
-                                                                                 bytes([127, 0, 0, 1]) + (3333).to_bytes(2, 'big') + my_id], b'p': 1})]
+            entries = [b'short', b'\x01\x02\x03\x04\x00\x00' + my_id, b'x' * 100,
+                       bytes([10, 0, 0, 1]) + (3333).to_bytes(2, 'big') + my_id,
+                       bytes([127, 0, 0, 1]) + (3333).to_bytes(2, 'big') + my_id,
+                       bytes([45, 45, 7, 1]) + (4444).to_bytes(2, 'big') + my_id + b'\x00',                # a public one with one byte too many
+                       bytes([45, 45, 7, 2]) + (4444).to_bytes(2, 'big') + my_id + my_id[:6],
+                       bytes([45, 45, 7, 3]) + (4444).to_bytes(2, 'big') + my_id[:-1]]                      # and one byte short
+            for e in entries:
+                if len(e) != 54 and len(e) >= 6:          # what a decoder that ignores the length would make of it (seeded break C17-K)
+                    net.illformed.add((socket.inet_ntoa(e[:4]), int.from_bytes(e[4:6], 'big')))
+            return [reply(rpc_id, {b'token': b't' * 48, b'contacts': [], key: entries, b'p': 1})]
         if kind == 'missing_token':
             return [reply(rpc_id, {b'contacts': honest_contacts})]
         if kind == 'endless_pages':
@@ -917,6 +926,11 @@ async def _fault(rec, case, loop):
                 else:
                     rec.hit('T2.value_results_checked')
                     for p in found:
+                        if (p.address, p.tcp_port) in net.illformed:
+                            rec.violation('C12/T2/value-lookup-yielded-peer-from-ill-formed-compact-address',
+                                          f'value lookup yielded {p.address}:{p.tcp_port}, which only a compact address of the wrong length named',
+                                          {'address': p.address, 'port': p.tcp_port, 'hostile': case['hostile']})
+                            break
                         if not valid_public_peer(p.address, p.tcp_port):
                             rec.violation('C12/T2/value-lookup-yielded-invalid-peer-address', f'value lookup yielded {p.address}:{p.tcp_port}',
                                           {'address': p.address, 'port': p.tcp_port, 'hostile': case['hostile']})
